@@ -150,6 +150,40 @@ func runC13(c *c13Case) (labels []string, nontrivial bool, err error) {
 		wb, _ := json.Marshal(wp)
 		return labels, false, Violf("C13", "rendered-template-differs-from-reference", "rendered phases\n  %s\nexpected\n  %s", gb, wb)
 	}
+	// every sub-component renders to exactly its own objects, nothing of the root or of its siblings
+	for i := 0; i < c.Desc.Components; i++ {
+		name := ComponentName(i)
+		labels = append(labels, "multi-component")
+		cp := packages.Files{}
+		for k, v := range files {
+			cp[k] = append([]byte{}, v...)
+		}
+		pkg, lerr := packages.DefaultStructuralLoader.LoadComponent(context.Background(), &packages.RawPackage{Files: cp}, name)
+		if lerr != nil {
+			return labels, false, Violf("C13", "component-does-not-load", "component %s of a valid multi-component package does not load: %v", name, lerr)
+		}
+		inst, rerr := packages.RenderPackageInstance(context.Background(), pkg, renderCtxFor(c.Ctx),
+			append(packages.DefaultPackageValidators, packages.PackageScopeValidator(manifests.PackageManifestScopeNamespaced)),
+			packages.DefaultObjectValidators)
+		if rerr != nil {
+			return labels, false, Violf("C13", "component-does-not-render", "component %s does not render: %v", name, rerr)
+		}
+		ts := packages.RenderObjectSetTemplateSpec(inst)
+		var got []string
+		for _, ph := range ts.Phases {
+			for _, o := range ph.Objects {
+				got = append(got, ph.Name+"/"+o.Object.GetKind()+"/"+o.Object.GetName())
+			}
+		}
+		if want := "cph/ConfigMap/in-" + name; len(got) != 1 || got[0] != want {
+			return labels, false, Violf("C13", "component-objects-not-conserved", "component %s rendered objects %v, expected exactly [%s]", name, got, want)
+		}
+	}
+	for _, f := range c.Desc.Files {
+		if strings.HasPrefix(f.Path, "components") && len(f.Objs) > 0 {
+			labels = append(labels, "root-file-named-like-components-folder")
+		}
+	}
 	// non-trivial classification
 	dirs := map[string]bool{}
 	nfiles := 0
